@@ -135,6 +135,7 @@ func (e *MacroExpander) expandItem(item ast.Item) (ast.Item, error) {
 		return &ast.Route{
 			Path:        it.Path,
 			Method:      it.Method,
+			InputType:   it.InputType,
 			ReturnType:  it.ReturnType,
 			Auth:        it.Auth,
 			RateLimit:   it.RateLimit,
@@ -308,6 +309,7 @@ func (e *MacroExpander) substituteNode(node ast.Node, subs map[string]ast.Expr) 
 		return &ast.Route{
 			Path:        path,
 			Method:      n.Method,
+			InputType:   n.InputType,
 			ReturnType:  n.ReturnType,
 			Auth:        n.Auth,
 			RateLimit:   n.RateLimit,
